@@ -38,6 +38,8 @@ TObs ==
     \* client sink actually accepted
     /\ R.mo = met["out"] /\ R.mi = met["in"] /\ R.cb = SumSent(toClient)
     /\ AllGot
+    \* and every reply a peer sent to a socket that is alive and well has been handed to the client
+    /\ \A k \in DOMAIN fwdTab : k \notin sockErr => rxq[k] = << >>
     /\ UNCHANGED vars
 
 TClientDgram == Ev("ClientDgram") /\ Adv1 /\ EnvQuiet /\ ClientDgram(R.f, R.id, R.n)
